@@ -13,6 +13,7 @@ Notation "'let?' x := e1 'in' e2" := (opt_bind e1 (fun x => e2)) (at level 200, 
 
 Definition enc_strs := enc_list enc_str.
 
+(* FAMILY: run_defaults *)
 Definition run_defaults (fn : sexp) (args : list sexp) : option sexp :=
   if is_sym "extract_default" fn then
     match args with
@@ -77,6 +78,7 @@ Definition run_defaults (fn : sexp) (args : list sexp) : option sexp :=
     end
   else None.
 
+(* FAMILY: run_pystr *)
 Definition run_pystr (fn : sexp) (args : list sexp) : option sexp :=
   match args with
   | [a] =>
